@@ -1,14 +1,14 @@
 SPECIFICATION Spec
 CONSTANTS
-  Files = {1}
+  Files = {}
   Texts = {3}
-  Classes = {"io", "simple", "proto", "stop", "remote"}
-  MaxInject = 1
-  MaxNoise = 0
+  Classes = {"io", "remote"}
+  MaxInject = 0
+  MaxNoise = 1
   WithBg = FALSE
   WithDead = {}
   AsCoded = FALSE
-  Mutant = "none"
+  Mutant = "flood"
 INVARIANTS TypeOK ToldAtMostOnce ToldUnlessPeerKnows KindMatchesTraceback ShownIsSent OnlyCreated TermResetOnce DrainBounded
 
 CHECK_DEADLOCK FALSE
